@@ -209,7 +209,7 @@ def build_designspace(axes, sources, rules=None, lib=None, instances=None, modul
         from fontTools.designspaceLib import RangeAxisSubsetDescriptor, VariableFontDescriptor
         for vf in variable_fonts:
             ds.addVariableFont(VariableFontDescriptor(
-                name=vf["name"],
+                name=vf["name"], lib=copy.deepcopy(vf.get("lib") or {}),
                 axisSubsets=[RangeAxisSubsetDescriptor(name=n) if isinstance(n, str) else
                              RangeAxisSubsetDescriptor(name=n["name"], userMinimum=n["min"],
                                                        userDefault=n.get("default"), userMaximum=n["max"])
